@@ -98,25 +98,32 @@ impl TestLifecycle {
         context.effect(move || log.lock().unwrap().push("map:clr".to_string()))
     }
 
-    /// A command `n` makes the agent's own handler act: n%3 = 0 pushes `n` to the supply lane, 1 sets the value lane
-    /// to `n`, 2 updates the map entry `n%4` to `n`.
+    /// A command `n` makes the agent's own handler act (n%6): 0, 3 push `n` to the supply lane, 1 sets the value lane,
+    /// 2 updates the map entry MAP_KEYS[n%4] to `n`, 4 does the same through `transform_entry`, 5 removes that entry.
     #[on_command(cmd)]
     pub fn on_command(&self, context: HandlerContext<TestAgent>, value: &i32) -> impl EventHandler<TestAgent> {
         let log = self.log.clone();
         let n = *value;
         let note = context.effect(move || log.lock().unwrap().push(format!("cmd:{}", n)));
         let log2 = self.log.clone();
-        let act = match n.rem_euclid(3) {
-            0 => context
+        let key = MAP_KEYS[n.rem_euclid(4) as usize];
+        let act = match n.rem_euclid(6) {
+            0 | 3 => context
                 .effect(move || log2.lock().unwrap().push(format!("sup:{}", n)))
                 .followed_by(context.supply(TestAgent::SUP, n))
                 .boxed_local(),
             1 => context.set_value(TestAgent::VAL, n).boxed_local(),
-            _ => context.update(TestAgent::MAP, n.rem_euclid(4), n).boxed_local(),
+            2 => context.update(TestAgent::MAP, key, n).boxed_local(),
+            // insert-or-replace through `transform_entry` (the entry may be absent)
+            4 => context.transform_entry(TestAgent::MAP, key, move |_| Some(n)).boxed_local(),
+            _ => context.remove(TestAgent::MAP, key).boxed_local(),
         };
         note.followed_by(act)
     }
 }
+
+/// Map keys used by the scripts: their decimal text order differs from their numeric order.
+const MAP_KEYS: [i32; 4] = [2, 10, 33, 7];
 
 struct RemoteCtx {
     id: Uuid,
@@ -466,10 +473,12 @@ fn gen_case(rng: &mut Rng) -> Vec<String> {
                 3..=5 => {
                     key_counter += 1;
                     let _ = key_counter;
-                    let body = match rng.below(10) {
+                    let body = match rng.below(12) {
                         0 => "@clear".to_string(),
-                        1 | 2 => format!("@remove(key:{})", rng.below(4)),
-                        _ => format!("@update(key:{}) {}", rng.below(4), n),
+                        1 | 2 => format!("@remove(key:{})", MAP_KEYS[rng.below(4) as usize]),
+                        3 => format!("@take({})", rng.below(3)),
+                        4 => format!("@drop({})", rng.below(3)),
+                        _ => format!("@update(key:{}) {}", MAP_KEYS[rng.below(4) as usize], n),
                     };
                     ops.push(format!("cmd {} map {}", r, hex(body.as_bytes())));
                 }
